@@ -92,6 +92,13 @@ where
         &self,
         symbol: impl Borrow<Self::Symbol>,
     ) -> Option<(Self::Probability, <Self::Probability as BitArray>::NonZero)> {
+        // Symbols that don't fit into `Probability` lie outside the support (which ends at
+        // `last_symbol: Probability`); reject them before the conversion below truncates them
+        // to some other symbol that might lie inside the support.
+        if Probability::BITS < <usize as BitArray>::BITS && (*symbol.borrow() >> Probability::BITS) != 0
+        {
+            return None;
+        }
         let symbol = symbol.borrow().as_();
         let left_cumulative = symbol.wrapping_mul(&self.probability_per_bin.get());
 
